@@ -277,7 +277,10 @@ def map_wf(m: MapObj, now=None):
     body = [up(k) == k, m.rank[k] < m.ctr]
     if now is not None:
         body.append(born(OptRef.val(m.arr[k])) < now)
-    return z3.ForAll([k], z3.Implies(map_present(m, k), z3.And(*body)), patterns=[m.arr[k]])
+    try:
+        return z3.ForAll([k], z3.Implies(map_present(m, k), z3.And(*body)), patterns=[m.arr[k]])
+    except z3.Z3Exception:       # the array term is not pattern material (contains an ite): let z3 choose triggers
+        return z3.ForAll([k], z3.Implies(map_present(m, k), z3.And(*body)))
 
 
 def map_wf_at(m: MapObj, keys, now=None):
@@ -472,13 +475,19 @@ class Engine:
         if isinstance(v, VNone):
             return NONE
         if isinstance(v, VInt):
-            return box_int(v.z)
+            r = box_int(v.z)        # ground instances of the boxing axioms (so quantifier-free queries can use them)
+            st.assume(cls_of(r) == self.lat.id("int"), int_of(r) == v.z, truthy(r) == (v.z != 0))
+            return r
         if isinstance(v, VStr):
-            return box_str(v.z)
+            r = box_str(v.z)
+            st.assume(cls_of(r) == self.lat.id("str"), str_of(r) == v.z, truthy(r) == (z3.Length(v.z) > 0))
+            return r
         if isinstance(v, VBool):
             return z3.If(v.z, TRUE, FALSE)
         if isinstance(v, VTd):
-            return box_td(v.us)
+            r = box_td(v.us)
+            st.assume(cls_of(r) == self.lat.id("timedelta"), td_us(r) == v.us, truthy(r) == (v.us != 0))
+            return r
         if isinstance(v, (VObj, VMap)):
             o = st.heap[v.addr]
             if o.ref is None:
@@ -681,6 +690,8 @@ class Engine:
         if isinstance(c, int):
             return [(st, VInt(z3.IntVal(c)))]
         if isinstance(c, str):
+            # ground fact about str.upper on this literal, computed by CPython itself
+            st.assume(up(z3.StringVal(c)) == z3.StringVal(c.upper()))
             return [(st, VStr(z3.StringVal(c)))]
         raise Undecided(f"constant {c!r}")
 
